@@ -61,7 +61,7 @@ func vpGenProg(budget *int, depth int) *vpProg {
 	case gParen:
 		p.kids = []*vpProg{vpGenProg(budget, depth-1)}
 	case gBadAssign:
-		p.lit = vpChoice("bad", 4) // 0: x = e, 1: 1 = e, 2: x.k = e, 3: ($a) = e
+		p.lit = vpChoice("bad", 6) // 0: x = e, 1: 1 = e, 2: x.k = e, 3: ($a) = e, 4: $a.k = e, 5: $a!.k = e
 		p.kids = []*vpProg{vpGenProg(budget, depth-1)}
 	}
 	return p
@@ -106,6 +106,10 @@ func (p *vpProg) ast() Expression {
 			target = vpNumLit(1)
 		case 3:
 			target = &ParenthesizedExpression{Expression: vpId("$a")}
+		case 4:
+			target = &SelectorExpression{Expression: vpId("$a"), Name: vpId("k")}
+		case 5:
+			target = &SelectorExpression{Expression: vpId("$a"), Name: vpId("k"), Assert: true}
 		default:
 			target = &SelectorExpression{Expression: vpId("x"), Name: vpId("k")}
 		}
@@ -495,4 +499,47 @@ func VP_C07_rebind() {
 		vpAssert("C07/rebind/bindings-made-before-the-error-are-visible", errb == nil && same(b, 3))
 	}
 	vpReach("C07/rebind/done")
+}
+
+func init() {
+	vpHarnesses["VP_C07_spread"] = VP_C07_spread
+}
+
+// C07/spread: call arguments are evaluated left to right also in a spread call
+// f(a, xs...): a local assigned in one argument is seen by the arguments to its
+// right and not by those to its left.
+func VP_C07_spread() {
+	digits := func(first int, rest ...int) (int, error) {
+		v := first
+		for _, r := range rest {
+			v = v*10 + r
+		}
+		return v, nil
+	}
+	pool := []struct {
+		f    string
+		want int
+	}{
+		{"$a = 1, digits($a = 5, [$a, 7]...)", 557}, {"$x = 1, digits($x, [$x = 9, 0]...)", 190}, {"$a = 1, digits($a, [$a, $a = 3]...)", 113},
+		{"$a = 2, digits(($a = 4, $a), [$a]...)", 44}, {"$a = 1, digits($a = 5, $a, 7)", 557}, {"$a = 1, [$a, $a = 2, $a]", -1},
+		{"$a = 6, digits($a, [1, 2]...) + ($a = 1)", 613}, {"digits($b = 3, [$b, $b]...) + $b", 336},
+	}
+	p := pool[vpChoice("f", len(pool))]
+	code, err := ParseSourceCode([]byte(p.f))
+	vpAssert("C07/spread/parses", err == nil)
+	if err != nil {
+		return
+	}
+	r := NewRunner()
+	r.SetThis(map[string]interface{}{"digits": digits})
+	v, rerr := r.resolve(context.Background(), code.Expression)
+	vpObserve("spread", p.f, vpShowValue(v))
+	vpAssert("C07/spread/no-error", rerr == nil)
+	if p.want < 0 {
+		arr, ok := v.([]interface{})
+		vpAssert("C07/spread/array-elements-left-to-right", ok && len(arr) == 3 && vpSameRef(arr[0], 1) && vpSameRef(arr[1], 2) && vpSameRef(arr[2], 2))
+	} else {
+		vpAssert("C07/spread/arguments-left-to-right", vpSameRef(v, p.want))
+	}
+	vpReach("C07/spread/done")
 }
